@@ -38,8 +38,7 @@ def env_subst(body, env):
     val = env.get(name) if "=" not in name else None
     if val is None:
         val = default
-    elif val == "" and default is not None:
-        grey = True         # set-but-empty with a default: code gives "", shell would give the default
+    # a variable that is set to the empty string is set: its (empty) value is used, not the default
     if val is None:
         val = ""
     return val, grey
